@@ -127,6 +127,13 @@ def gen_forward(ctx):
         ("pure-north", 45.04, 7.0, 45.0, 7.0),
         ("south-west", -33.93, 18.40, -33.9, 18.45),
     ]
+    # station tables read from a float32 NetCDF: tower coordinates as np.float32 scalars, the origin a Python float that
+    # is not a float32 number - the result must be the transform of the EXACT values (numpy >= 2 would round the Python
+    # float to float32 in a mixed subtraction)
+    import numpy as np
+    for j, (la, lo, rla, rlo) in enumerate([(50.9512, 11.5873, 50.95, 11.586), (-35.3021, 149.1013, -35.3, 149.1), (64.8003, -147.7011, 64.8, -147.7)]):
+        special.append(("f32-%d" % j, np.float32(la), np.float32(lo), rla, rlo))
+        special.append(("f32ref-%d" % j, la, lo, np.float32(rla), np.float32(rlo)))
     return special + cases
 
 
@@ -216,7 +223,7 @@ def check(ctx):
         except Exception as e:
             ctx.fail("correspondence", "C17:fwd-%d" % i, "latlon_to_xy raised %r" % e, hint={"kind": "fwd", "args": [lat, lon, rlat, rlon]})
             continue
-        a = " ".join(rcorr.rlit(v) for v in (lat, lon, rlat, rlon))
+        a = " ".join(rcorr.rlit(float(v)) for v in (lat, lon, rlat, rlon))
         h = {"kind": "fwd", "args": [lat, lon, rlat, rlon], "impl": [float(x), float(y)]}
         add("fx%d" % i, "Rabs (fst (latlon_to_xy %s) - %s) <= %s" % (a, rcorr.rlit(float(x)), TOL_M), "fwd:" + kind.split("-")[0], h)
         add("fy%d" % i, "Rabs (snd (latlon_to_xy %s) - %s) <= %s" % (a, rcorr.rlit(float(y)), TOL_M), "fwd:" + kind.split("-")[0], h)
@@ -406,6 +413,19 @@ def probe_roundtrip_lr(cp, geo, lat, lon, rlat, rlon):
     return [("roundtrip:lr", "latlon->xy->latlon moved the point by %.3g deg (tol %.1g)" % (e, tol))] if not e <= tol else []
 
 
+def probe_roundtrip_lr32(cp, geo, lat, lon, rlat, rlon, which):
+    """the same round trip with some of the (float32-representable) numbers handed over as np.float32 scalars"""
+    import numpy as np
+    vals = [lat, lon, rlat, rlon]
+    args = [np.float32(v) if w else v for v, w in zip(vals, which)]
+    x, y = cp.latlon_to_xy(*args)
+    la, lo = geo.xy_to_latlon(float(x), float(y), float(args[2]), float(args[3]))
+    tol = 1e-9 * max(1.0, abs(lat), abs(lon), abs(rlat), abs(rlon))
+    e = max(abs(float(la) - float(args[0])), abs(float(lo) - float(args[1])))
+    return [("roundtrip:lr:float32-presentation", "latlon->xy->latlon with np.float32 scalars for %s moved the point by %.3g deg (tol %.1g)"
+             % ([n for n, w in zip(("lat", "lon", "ref_lat", "ref_lon"), which) if w], e, tol))] if not e <= tol else []
+
+
 def probe_roundtrip_rl(cp, geo, x, y, rlat, rlon):
     out = []
     la, lo = geo.xy_to_latlon(x, y, rlat, rlon)
@@ -519,7 +539,7 @@ def probe_config(cp, geo, raw):
 
 PROBES = {
     "config": probe_config,
-    "lr": probe_roundtrip_lr, "rl": probe_roundtrip_rl, "origin": probe_origin,
+    "lr": probe_roundtrip_lr, "lr32": probe_roundtrip_lr32, "rl": probe_roundtrip_rl, "origin": probe_origin,
     "orientation": probe_orientation, "accuracy": probe_accuracy, "array": probe_array,
 }
 
@@ -532,6 +552,9 @@ def oracle(ctx, hints):
         if not h:
             continue
         if h.get("kind") == "fwd":
+            import numpy as np
+            if any(isinstance(v, np.float32) for v in h["args"]):
+                pool.append(("lr32", [float(v) for v in h["args"]] + [[isinstance(v, np.float32) for v in h["args"]]]))
             lat, lon, rlat, rlon = [float(v) for v in h["args"]]
             pool.append(("lr", [lat, lon, rlat, rlon]))
             pool.append(("orientation", [rlat, rlon, lat, lon, 1e-3, 1e-3]))
@@ -566,6 +589,10 @@ def oracle(ctx, hints):
             xs = [rng.uniform(-5000, 5000) for _ in range(4)]
             ys = [rng.uniform(-5000, 5000) for _ in range(4)]
             pool.append(("array", [xs, ys, rlat, rlon]))
+    import numpy as _np
+    for la, lo, rla, rlo in ((50.9512, 11.5873, 50.95, 11.586), (-35.3021, 149.1013, -35.3, 149.1), (64.8003, -147.7011, 64.8, -147.7)):
+        pool.append(("lr32", [float(_np.float32(la)), float(_np.float32(lo)), rla, rlo, [True, True, False, False]]))
+        pool.append(("lr32", [la, lo, float(_np.float32(rla)), float(_np.float32(rlo)), [False, False, True, True]]))
     # far points and high-latitude references for the algebraic clauses only
     for k in range(n // 4):
         rlat, rlon = rng.uniform(-89, 89), rng.uniform(-180, 180)
